@@ -22,26 +22,29 @@ import (
 // C07 — connections are isolated: pooled buffers never leak data between connections.
 
 type c07Conn struct {
-	id       int
-	lc       *libConn
-	mode     c03Mode
-	alive    bool // usable for reads
-	open     bool // not yet closed locally
-	def      *ref.Deflater
-	pending  [][]byte // complete inbound messages not yet (fully) read
-	pfrags   []int    // fragment count of each pending message
-	pcomp    []bool   // whether each pending message went out compressed
-	curComp  bool
-	noComp   bool // after a partly read compressed message was abandoned under context takeover the window is out of step: no more compressed messages
-	curFrags int
-	compHist int // bytes of compressed-message payload received under takeover (this connection\'s own LZ77 history)
-	cur      io.Reader
-	curWant  []byte
-	curOff   int
-	last     io.Reader // reader of the last message read to EOF
-	seq      int
-	written  [][]byte
-	jsonNext bool
+	id    int
+	lc    *libConn
+	mode  c03Mode
+	alive bool // usable for reads
+	open  bool // not yet closed locally
+	// cleanDead: closed (by the peer's Close frame or locally) while no message was open: every
+	// further call on it, also on the reader of its last message, fails at once
+	cleanDead bool
+	def       *ref.Deflater
+	pending   [][]byte // complete inbound messages not yet (fully) read
+	pfrags    []int    // fragment count of each pending message
+	pcomp     []bool   // whether each pending message went out compressed
+	curComp   bool
+	noComp    bool // after a partly read compressed message was abandoned under context takeover the window is out of step: no more compressed messages
+	curFrags  int
+	compHist  int // bytes of compressed-message payload received under takeover (this connection\'s own LZ77 history)
+	cur       io.Reader
+	curWant   []byte
+	curOff    int
+	last      io.Reader // reader of the last message read to EOF
+	seq       int
+	written   [][]byte
+	jsonNext  bool
 }
 
 var c07Modes = []c03Mode{
@@ -291,12 +294,12 @@ func TestC07(t *testing.T) {
 					// (only while the connection is in order: once a later message of it has failed half-way,
 					// the connection's one reader object is inside that message, and a Read on the old handle
 					// waits for the rest of it like any other Read)
-					c := s.pick(rt, func(c *c07Conn) bool { return c.alive && c.last != nil && c.cur == nil })
+					c := s.pick(rt, func(c *c07Conn) bool { return (c.alive || c.cleanDead) && c.last != nil && c.cur == nil })
 					if c == nil {
 						return
 					}
 					b := rapid.SampledFrom(c07Bufs).Draw(rt, "buf")
-					step("readAfterEOF(c%d,%d)", c.id, b)
+					step("readAfterEOF(c%d,%d,closed=%v)", c.id, b, c.cleanDead)
 					buf := make([]byte, b)
 					var n int
 					s.call(rt, "Read after EOF", func() { n, _ = c.last.Read(buf) })
@@ -334,8 +337,25 @@ func TestC07(t *testing.T) {
 							c.lc.C.Close(websocket.StatusNormalClosure, "")
 						}
 					})
+					c.cleanDead = c.cur == nil && len(c.pending) == 0
 					c.alive, c.open = false, false
 					s.release(c.id, "local-close")
+				},
+				"peerCloseBoundary": func(rt *rapid.T) {
+					// the peer closes between two messages: the Close frame is taken in by a Reader call
+					c := s.pick(rt, func(c *c07Conn) bool { return c.alive && c.open && c.cur == nil && len(c.pending) == 0 })
+					if c == nil {
+						return
+					}
+					step("peerCloseBoundary(c%d)", c.id)
+					c.lc.Peer.send(ref.Frame{Fin: true, Opcode: ref.OpClose, Payload: ref.ClosePayload(1000, "")})
+					var err error
+					s.call(rt, "Reader taking in the peer's Close frame", func() { _, _, err = c.lc.C.Reader(context.Background()) })
+					if err == nil {
+						rt.Fatalf("C07: conn %d: Reader returned nil for a Close frame\nsteps: %v", c.id, s.steps)
+					}
+					c.alive, c.cleanDead = false, true
+					s.release(c.id, "peer-close-at-boundary")
 				},
 				"peerCloseMid": func(rt *rapid.T) {
 					c := s.pick(rt, func(c *c07Conn) bool { return c.alive && c.cur == nil && len(c.pending) == 0 })
